@@ -141,10 +141,11 @@ class Effects:
         if f is None or f not in fields:
             # a local pointer that aliases storage of an object (T* p = obj->getData())
             if d is not None and d["decl"] in getattr(self, "_ptr_alias", {}):
-                op, fld = self._ptr_alias[d["decl"]]
+                al = self._ptr_alias[d["decl"]]
+                op, fld = al[0], al[1]
                 self._last_root = cur["id"]
                 self._last_obj = op
-                return fld, (subs[-1] if subs and False else None)
+                return fld, (al[2] if len(al) > 2 else None)
             return None
         self._last_root = cur["id"]
         self._last_obj = "this"
@@ -199,6 +200,14 @@ class Effects:
                                 op = self.objpath(A.call_object(c), fn, fields)
                                 if tgt and op:
                                     self._ptr_alias[d["decl"]] = (op, tgt)
+                                    continue
+                        if d.get("k") == "VarDecl" and "init" in d and ("*" in (d.get("ctype") or "") or (d.get("type") or "").rstrip().endswith("&") or
+                                                                        "multi_array::sub_array" in (d.get("ctype") or "") or "multi_array::multi_array_view" in (d.get("ctype") or "")) \
+                                and not (d.get("type") or "").rstrip().endswith("&&"):
+                            # a local reference / pointer to (an element of) one of the object's own fields: T& r = _f[i][j];  T* p = &_f[i];
+                            fa = self._field_access(d["init"], fields)
+                            if fa is not None:
+                                self._ptr_alias[d["decl"]] = (self._last_obj, fa[0], fa[1])
 
         fidx = A.index(fn)
 
